@@ -306,6 +306,59 @@ Proof using Hdec.
   apply boundary_in. rewrite <- runes_total. apply (boundaries_total_in (runes_with dec t) 0).
 Qed.
 
+(* the walk, rune by rune *)
+Lemma runes_go_skip : forall s k, (k <= length s)%nat -> runes_go dec s k = runes_go dec (skipn k s) 0.
+Proof.
+  induction s as [|b s IH]; intros k Hk.
+  - simpl in Hk. assert (k = 0%nat) by lia. subst. reflexivity.
+  - destruct k as [|k]; [reflexivity|]. cbn [runes_go skipn]. apply IH. simpl in Hk. lia.
+Qed.
+
+Lemma runes_unfold s c w : s <> [] -> dec s = (c, w) ->
+  runes_with dec s = (c, w) :: runes_with dec (skipn (Z.to_nat w) s).
+Proof using Hdec.
+  intros Hne Hd. pose proof (dec_width _ Hdec _ _ _ Hne Hd) as Hw.
+  destruct s as [|b s']; [congruence|]. unfold runes_with. cbn [runes_go]. rewrite Hd. cbn [snd]. f_equal.
+  cbn [length] in Hw. rewrite runes_go_skip by lia.
+  replace (Z.to_nat w) with (S (Z.to_nat (w - 1))) by lia. reflexivity.
+Qed.
+
+Lemma boundaries_head rs pos : In pos (boundaries rs pos).
+Proof. destruct rs; simpl; auto. Qed.
+
+(* from a boundary inside the text the next rune leads to a boundary: the scanner's Advance *)
+Lemma boundary_step_gen : forall n s p o c w, (length s <= n)%nat ->
+  In o (boundaries (runes_with dec s) p) -> o - p < Z.of_nat (length s) ->
+  dec (skipn (Z.to_nat (o - p)) s) = (c, w) ->
+  In (o + w) (boundaries (runes_with dec s) p).
+Proof using Hdec.
+  induction n as [|n IH]; intros s p o c w Hn Hin Hlt Hd.
+  - destruct s; [|simpl in Hn; lia]. simpl in Hin. destruct Hin as [Hin|[]]. simpl in Hlt. lia.
+  - destruct s as [|b s'] eqn:Hs; [simpl in Hin; destruct Hin as [Hin|[]]; simpl in Hlt; lia|].
+    rewrite <- Hs in *. assert (Hne : s <> []) by (rewrite Hs; discriminate).
+    destruct (dec s) as [c0 w0] eqn:Hd0.
+    pose proof (dec_width _ Hdec _ _ _ Hne Hd0) as Hw0.
+    rewrite (runes_unfold s c0 w0 Hne Hd0) in *. cbn [boundaries snd] in *.
+    destruct Hin as [Hin|Hin].
+    + subst o. replace (p - p) with 0 in Hd by lia. simpl in Hd. rewrite Hd0 in Hd. inversion Hd; subst.
+      right. apply boundaries_head.
+    + right.
+      pose proof (boundaries_ge _ (runes_width_pos (skipn (Z.to_nat w0) s) 0%nat) _ _ Hin) as Hge.
+      apply (IH (skipn (Z.to_nat w0) s) (p + w0) o c w).
+      * rewrite skipn_length. lia.
+      * exact Hin.
+      * rewrite skipn_length. lia.
+      * rewrite skipn_add. replace (Z.to_nat w0 + Z.to_nat (o - (p + w0)))%nat with (Z.to_nat (o - p)) by lia. exact Hd.
+Qed.
+
+Lemma boundary_step t o c w : In o (boundaries (runes_with dec t) 0) -> o < zlen t ->
+  dec (skipn (Z.to_nat o) t) = (c, w) -> In (o + w) (boundaries (runes_with dec t) 0).
+Proof using Hdec.
+  intros Hin Hlt Hd. apply (boundary_step_gen (length t) t 0 o c w); try assumption; try lia.
+  - unfold zlen in Hlt. lia.
+  - now rewrite Z.sub_0_r.
+Qed.
+
 (* ------------------------------------------------------------------ Part 3: the theorems *)
 
 (* for EVERY offset -- inside the text or not, at a rune or not -- the rendered position exists *)
